@@ -46,6 +46,13 @@ pub(crate) fn input_matches(mut input: Ref) -> io::Result<bool> {
 		Ref::Reader(r) => match_input_reader(r),
 	};
 	match result {
+		// rmp reports running out of input as an UnexpectedEof I/O error,
+		// which only means that the input is not complete MessagePack.
+		Err(InvalidMarkerRead(err) | InvalidDataRead(err))
+			if err.kind() == io::ErrorKind::UnexpectedEof =>
+		{
+			Ok(false)
+		}
 		Err(InvalidMarkerRead(err) | InvalidDataRead(err)) => Err(err),
 		Err(_) => Ok(false),
 		Ok(()) => Ok(true),
